@@ -20,7 +20,7 @@ VARIABLES l, bad, cnt
 vars == <<l, bad, cnt>>
 
 RelNames == {"incr_eq_scratch", "same_final", "noop_rebuild", "cone", "crash_equiv",
-             "watch_eq_restart", "nontrivial", "clean_tool"}
+             "watch_eq_restart", "nontrivial", "clean_tool", "pair_orders"}
 Bump(c, name) == [c EXCEPT ![name] = @ + 1]
 
 Mk(e, prop, clauses) ==
@@ -138,6 +138,30 @@ CleanTool(e) ==
   \cup {<<"clean_created_a_file", p>> : p \in (DOMAIN after.files) \ (DOMAIN before.files)}
   \cup (IF e.a.state # e.b.state THEN {<<"clean_changed_the_database", "">>} ELSE {})
 
+(* C08 / C02: a pair of declarations in both arrival orders *)
+GlobDecls == {"glob_txt", "glob_dtxt", "glob_named"}
+ProductDecls == {"step1_out_b", "step3_out_dnew", "step6_out_b", "step6_vol_b", "amend_out_b", "amend_vol_dnew",
+                 "step2_inp_a_out_c"}
+
+PairRejected(r) == r.a[1] # "ok" \/ r.b[1] # "ok"
+PairComplete(r) == r.a[1] # "none" /\ r.b[1] # "none"
+PairOrdersC08(e) ==
+  IF ~(PairComplete(e.ab) /\ PairComplete(e.ba)) THEN {}
+  ELSE IF PairRejected(e.ab) # PairRejected(e.ba)
+       THEN {<<"conflict_rejected_in_one_order_only", <<e.info.decl_a, e.info.decl_b>>,
+               \* F11: a pattern is only checked against the matches recorded on disk, so a step
+               \* output that does not exist yet is accepted when the step is defined first
+               IF (e.info.a \in GlobDecls /\ e.info.b \in ProductDecls) \/ (e.info.b \in GlobDecls /\ e.info.a \in ProductDecls)
+               THEN "F11-glob-after-planned-output-accepted" ELSE "">>}
+       ELSE {}
+PairOrdersC02(e) ==
+  IF ~(PairComplete(e.ab) /\ PairComplete(e.ba)) THEN {}
+  \* a genuine conflict between the two: in each order the first is accepted, the second rejected
+  ELSE IF e.ab.a[1] = "ok" /\ e.ab.b[1] # "ok" /\ e.ba.b[1] = "ok" /\ e.ba.a[1] # "ok"
+          /\ e.ab.b[2] # e.ba.a[2]
+       THEN {<<"conflict_message_depends_on_order", <<e.ab.b[2], e.ba.a[2]>>>>}
+       ELSE {}
+
 Eval(e) ==
   CASE e.rel = "incr_eq_scratch" -> Mk(e, "C01", IncrEqScratch(e))
     [] e.rel = "same_final" -> Mk(e, "C02", SameFinal(e))
@@ -146,6 +170,7 @@ Eval(e) ==
     [] e.rel = "crash_equiv" -> Mk(e, "C05", CrashEquiv(e))
     [] e.rel = "watch_eq_restart" -> Mk(e, "C14", WatchEqRestart(e))
     [] e.rel = "clean_tool" -> Mk(e, "C06", CleanTool(e))
+    [] e.rel = "pair_orders" -> Mk(e, "C08", PairOrdersC08(e)) \o Mk(e, "C02", PairOrdersC02(e))
     [] OTHER -> <<>>
 
 Init == l = 0 /\ bad = <<>> /\ cnt = [r \in RelNames |-> 0]
